@@ -51,7 +51,7 @@ def collect():
         sid = os.path.basename(os.path.dirname(meta))
         if info.get("status") == "obsolete":
             continue
-        items.append((sid, info["property"],
+        items.append((sid, info.get("check_property") or info["property"],
                       os.path.join(os.path.dirname(meta), "patch.diff")))
     return items
 
